@@ -39,6 +39,7 @@ def run(ctx):
     rule_esc(ctx, F)
     rule_mn(ctx, F)
     rule_label(ctx, F)
+    rule_empty(ctx, F)
     rule_block(ctx, F)
     rule_entry(ctx, F)
     rule_sib(ctx, F)
@@ -571,3 +572,128 @@ def rule_sib(ctx, F):
                % (adt.split("::")[-1], diff, "Display" if diff and a.get(diff[0]) else "ZonefileFmt",
                   "ZonefileFmt" if diff and a.get(diff[0]) else "Display"))
     ctx.anchor(R, "enums with both Display and ZonefileFmt", n >= 3)
+
+
+# ---------------------------------------------------------------------------
+# scan_name: no empty label inside a name
+# ---------------------------------------------------------------------------
+
+def rule_empty(ctx, F):
+    """The zone-file reader assembles a name label by label in place and hands the octets to
+    from_octets_unchecked.  convert_label reports `Some(true)` when it stopped at a dot; a label that
+    ended where it began (W == S + 1, only the length octet) is empty.  Only the very first label may be
+    empty (the root name `.`, which returns); on every path that goes on to the next label the label
+    just converted must be known to be non-empty.  Decided over sample values of the running length W and
+    its value S before the call (the comparisons involved are linear in W and S), not by matching text."""
+    R = "C06.empty"
+    ctx.floor(R, 2)
+    b = F.body("<zonefile::inplace::EntryScanner<'_> as base::scan::Scanner>::scan_name")
+    if not ctx.anchor(R, "EntryScanner::scan_name", b):
+        return
+    calls = [bi for bi, t in b.calls() if (t["fn"] or "").endswith("EntryScanner::<'_>::convert_label")]
+    if not ctx.anchor(R, "scan_name -> convert_label (one call)", len(calls) == 1):
+        return
+    cb = calls[0]
+    defs = b.defs()
+
+    def ref_target(op, depth=0):
+        """local a `&mut`-chain operand points to"""
+        if op[0] not in ("c", "m") or len(op[1]) != 1 or depth > 4:
+            return None
+        for d in defs.get(op[1][0], []):
+            if d[0] == "stmt" and d[3][0] == "ref":
+                pl = d[3][2]
+                if len(pl) == 1:
+                    return pl[0]
+                if len(pl) == 2 and pl[1] == "*":
+                    return ref_target(("c", [pl[0]]), depth + 1)
+        return None
+    W = ref_target(b.blocks[cb]["t"]["args"][1])
+    if not ctx.anchor(R, "the running length passed by &mut to convert_label", W is not None):
+        return
+    S = {st[1][0] for st in b.blocks[cb]["s"]
+         if st[0] == "=" and len(st[1]) == 1 and st[2][0] == "use" and st[2][1][0] in ("c", "m") and st[2][1][1] == [W]}
+
+    def ev(op, w, s, depth=0):
+        if op[0] == "k":
+            return op[2] if isinstance(op[2], int) and not isinstance(op[2], bool) else None
+        if op[0] not in ("c", "m") or depth > 6:
+            return None
+        pl = op[1]
+        if pl == [W]:
+            return w
+        if len(pl) == 1 and pl[0] in S:
+            return s
+        ds = defs.get(pl[0], [])
+        if len(ds) != 1 or ds[0][0] != "stmt":
+            return None
+        rv = ds[0][3]
+        if len(pl) == 2 and pl[1][0] == "." and pl[1][1] == 0 and rv[0] == "bin" and rv[1].endswith("WithOverflow"):
+            a, c = ev(rv[2], w, s, depth + 1), ev(rv[3], w, s, depth + 1)
+            if a is None or c is None:
+                return None
+            return a + c if rv[1].startswith("Add") else a - c if rv[1].startswith("Sub") else None
+        if len(pl) != 1:
+            return None
+        if rv[0] == "use":
+            return ev(rv[1], w, s, depth + 1)
+        if rv[0] == "bin" and rv[1] in ("Add", "Sub"):
+            a, c = ev(rv[2], w, s, depth + 1), ev(rv[3], w, s, depth + 1)
+            if a is None or c is None:
+                return None
+            return a + c if rv[1] == "Add" else a - c
+        return None
+
+    CMP = {"Eq": lambda a, c: a == c, "Ne": lambda a, c: a != c, "Lt": lambda a, c: a < c, "Le": lambda a, c: a <= c,
+           "Gt": lambda a, c: a > c, "Ge": lambda a, c: a >= c}
+
+    def infeasible_edges(w, s):
+        out = set()
+        for bi in b.reachable_blocks():
+            t = b.blocks[bi]["t"]
+            if t["k"] != "switch" or t["ty"] != "bool" or t["d"][0] not in ("c", "m") or len(t["d"][1]) != 1:
+                continue
+            ds = defs.get(t["d"][1][0], [])
+            if len(ds) != 1 or ds[0][0] != "stmt" or ds[0][3][0] != "bin" or ds[0][3][1] not in CMP:
+                continue
+            rv = ds[0][3]
+            a, c = ev(rv[2], w, s), ev(rv[3], w, s)
+            if a is None or c is None:
+                continue
+            val = 1 if CMP[rv[1]](a, c) else 0
+            listed = [v for v, _ in t["v"]]
+            for succ, lab in b.succs(bi):
+                takes = (lab == ("v", val)) or (lab == ("o",) and val not in listed)
+                if not takes:
+                    out.add((bi, lab))
+        return out
+
+    # the edge on which convert_label reported "stopped at a dot"
+    bf = BranchFacts(b, F)
+    dot = []
+    for bi in sorted(b.reachable_blocks()):
+        if b.blocks[bi]["t"]["k"] != "switch":
+            continue
+        for lab, (tt, v) in bf.edge_facts(bi).items():
+            s = show(deep_strip(tt))
+            if v is True and "convert_label" in s and s.endswith(" as Some).0"):
+                dot.append((bi, lab))
+    if not ctx.anchor(R, "the `Some(true)` (stopped at a dot) edge of convert_label's result", len(dot) == 1):
+        return
+    start = b.edge_target(*dot[0])
+
+    def continues(w, s):
+        return cb in b.reach_from(start, removed_edges=infeasible_edges(w, s))
+    empties = [(s_ + 1, s_) for s_ in (0, 1, 5, 100, 253)]
+    fulls = [(s_ + 1 + n, s_) for s_, n in ((0, 1), (0, 63), (5, 1), (100, 7), (189, 63))]
+    bad = [(w, s_) for w, s_ in empties if continues(w, s_)]
+    ctx.ob(R, b, "an empty label never continues to the next label", not bad,
+           "scan_name goes on to the next label after convert_label stopped at a dot with no octet in the label "
+           "(running length %s after a label starting at %s): `a..b` becomes a name with a root label in the middle, "
+           "built through from_octets_unchecked" % (bad[0] if bad else ("-", "-")), b.where(dot[0][0]),
+           detail="sampled (length, label start) pairs: %s" % empties)
+    lost = [(w, s_) for w, s_ in fulls if not continues(w, s_)]
+    ctx.ob(R, b, "a non-empty label within the limits continues", not lost,
+           "scan_name does not reach the next label after a non-empty label (running length %s after a label "
+           "starting at %s): legal names are rejected" % (lost[0] if lost else ("-", "-")), b.where(dot[0][0]),
+           detail="sampled pairs: %s" % fulls)
